@@ -72,8 +72,8 @@ func Run(tier string, seed uint64, modelPath, repo string, out *res.Result) erro
 		return err
 	}
 	out.ModelCalls = m.N
-	out.Notes = append(out.Notes, fmt.Sprintf("timing: L1 resolveLinks %d cases %.1fs, L1 makeBookmarkTree %d cases %.1fs, L2 %d documents %.1fs",
-		nLinks, t1.Sub(t0).Seconds(), nBk, t2.Sub(t1).Seconds(), nDocs, time.Since(t2).Seconds()))
+	out.Notes = append(out.Notes, fmt.Sprintf("timing: L1 resolveLinks %d cases %.1fs, L1 makeBookmarkTree %d cases %.1fs, L2 %d documents %.1fs (render+write %.1fs incl. shrinking, monitor %.1fs, shrinking %.1fs)",
+		nLinks, t1.Sub(t0).Seconds(), nBk, t2.Sub(t1).Seconds(), nDocs, time.Since(t2).Seconds(), tRender.Seconds(), tMonitor.Seconds(), tShrink.Seconds()))
 	return nil
 }
 
@@ -445,14 +445,15 @@ func runDocs(m *mp.Model, r *rng.R, n int, fonts text.FontConfiguration, out *re
 			cls := f.Kind + "|" + f.Op + "|" + f.Key
 			// classes attributed to one SVG node by its colour are specific as they are: minimise the first two;
 			// the others are minimised (up to 25 per class) so that known-finding patterns see the culprit alone
-			lim := 25
+			lim := 6
 			if strings.Contains(f.Key, ":svg:") {
 				lim = 2
 			}
 			if shrunk[cls] < lim {
 				// minimise the first documents of every class (ddmin over the document text, same class must persist)
 				shrunk[cls]++
-				small := shrink(spec.HTML, 250, func(h string) bool {
+				ts := time.Now()
+				small := shrink(spec.HTML, 150, func(h string) bool {
 					s2 := *spec
 					s2.HTML = h
 					gs, err := check(m, &s2, caseSeed, fonts, nil, nil)
@@ -466,6 +467,7 @@ func runDocs(m *mp.Model, r *rng.R, n int, fonts text.FontConfiguration, out *re
 					}
 					return false
 				})
+				tShrink += time.Since(ts)
 				s2 := *spec
 				s2.HTML = small
 				if gs, err := check(m, &s2, caseSeed, fonts, nil, nil); err == nil {
@@ -500,7 +502,11 @@ func runDocs(m *mp.Model, r *rng.R, n int, fonts text.FontConfiguration, out *re
 	return nil
 }
 
+var tRender, tMonitor, tShrink time.Duration
+
 func renderDoc(spec *docSpec, fonts text.FontConfiguration, d time.Duration) (*render.Doc, *Rec, render.Outcome, error) {
+	t0 := time.Now()
+	defer func() { tRender += time.Since(t0) }()
 	var doc *render.Doc
 	var rerr error
 	var rec *Rec
@@ -523,10 +529,10 @@ func check(m *mp.Model, spec *docSpec, caseSeed uint64, fonts text.FontConfigura
 			out.Hit(b)
 		}
 	}
-	doc, rec, oc, rerr := renderDoc(spec, fonts, 20*time.Second)
+	doc, rec, oc, rerr := renderDoc(spec, fonts, 10*time.Second)
 	if oc.Timeout {
 		// other builders load the machine: confirm alone with a longer budget
-		doc, rec, oc, rerr = renderDoc(spec, fonts, 120*time.Second)
+		doc, rec, oc, rerr = renderDoc(spec, fonts, 45*time.Second)
 	}
 	if !oc.OK() || rerr != nil {
 		site := oc.Site
@@ -542,8 +548,8 @@ func check(m *mp.Model, spec *docSpec, caseSeed uint64, fonts text.FontConfigura
 		c := crashes[site]
 		if c == nil {
 			ex := spec.HTML
-			if len(ex) > 1500 {
-				ex = ex[:1500] + "…"
+			if len(ex) > 700 {
+				ex = ex[:700] + "…"
 			}
 			c = &crashNote{site: site, ex: fmt.Sprintf("seed=%d panic=%q html=%s", caseSeed, oc.Panic, ex)}
 			crashes[site] = c
@@ -561,11 +567,13 @@ func check(m *mp.Model, spec *docSpec, caseSeed uint64, fonts text.FontConfigura
 		out.Hit(fmt.Sprintf("doc:calls<=%d", bucket(len(rec.Events))))
 	}
 	add := func(kind, op, key, reason string, impl, model interface{}) {
-		fs = append(fs, res.Finding{Kind: kind, Op: op, Input: map[string]interface{}{"html": spec.HTML, "zoom": spec.Zoom}, Impl: impl, Model: model, Reason: reason, Key: key, Seed: caseSeed})
+		fs = append(fs, res.Finding{Kind: kind, Op: op, Input: fmt.Sprintf("zoom=%v %s", spec.Zoom, spec.HTML), Impl: impl, Model: model, Reason: reason, Key: key, Seed: caseSeed})
 	}
 
 	// ---- the call sequence, judged by the Lean monitor
+	tm := time.Now()
 	ans, err := m.Ask(sx.L(sx.A("proto"), sx.I(len(doc.Pages)), rec.Encode()))
+	tMonitor += time.Since(tm)
 	if err != nil {
 		return nil, err
 	}
